@@ -26,7 +26,7 @@ import cdd.shared.docstring_parsers
 import cdd.sqlalchemy.parse
 
 from vcdd import core
-from vcdd.gen import docgen, irgen
+from vcdd.gen import corpus, docgen, irgen
 from vcdd.monitors import contracts
 from vcdd.oracle import hops
 
@@ -149,8 +149,28 @@ def mechanism(parser, rule, detail, source, extra):
     return None
 
 
+import re
+
+NAMELESS_FIELD = re.compile(r"^\s*:(type|param|cvar|ivar|var)\s*:", re.M)
+
+
 def record(P, parser, ir, problems, source, extra=None):
     for rule, detail in problems:
+        if (CUR.get("klass") or "").startswith("corpus") and NAMELESS_FIELD.search(source or ""):
+            P.count("corpus.input-with-nameless-field")  # `:type: str` - a field without a name is not well-formed input
+            continue
+        if (CUR.get("klass") or "").startswith("corpus") and rule == "typ-not-expression" and "typ=" in detail:
+            # hand-written docstrings of the corpus carry types that are not expressions (`List[]`, an unbalanced
+            # backtick); a parser that hands such a type through verbatim has not malformed anything: the property
+            # speaks of well-formed inputs. Only a type that is *not* what the input says is the parser's doing.
+            written = detail.split("typ=", 1)[1].strip()
+            try:
+                written = ast.literal_eval(written)
+            except Exception:
+                pass
+            if isinstance(written, str) and written.strip("`").strip() and written.strip("`").strip() in (source or ""):
+                P.count("corpus.input-type-not-an-expression")
+                continue
         key = "ir-shape.%s.%s" % (parser, rule)
         mech = mechanism(parser, rule, detail, source, extra or {})
         P.deviation((mech + "|" if mech else "") + key + "|class=%s" % CUR.get("klass"),
@@ -249,7 +269,8 @@ def setup_shard(ctx, P):
 
 def streams(ctx):
     return [("emitted", ctx.scale(400, 3000)), ("docstrings", ctx.scale(5000, 50000)), ("functions", ctx.scale(2000, 20000)),
-            ("tokens", ctx.scale(8000, 100000)), ("sqlalchemy_hand", ctx.scale(2500, 25000))]
+            ("tokens", ctx.scale(8000, 100000)), ("sqlalchemy_hand", ctx.scale(2500, 25000)),
+            ("corpus_defs", len(corpus.definitions())), ("corpus_docs", len(corpus.docstrings()))]
 
 
 def gen_function(r):
@@ -363,6 +384,25 @@ def run_case(ctx, P, stream, idx):
                        else (cdd.sqlalchemy.parse.sqlalchemy_table,)):
             try:
                 parser(deepcopy(node))
+            except Exception:
+                P.count("parse.raised")
+        CUR.update(P=None)
+        return
+    if stream in ("corpus_defs", "corpus_docs"):
+        # the repository's own definitions and docstrings (package, tests, third-party style mocks): nobody generated them
+        if stream == "corpus_docs":
+            origin, text = corpus.docstrings()[idx]
+            P.case({"doc": text}, klass="corpus/docstring", sample={"origin": origin, "docstring": text[:300]})
+            try:
+                cdd.docstring.parse.docstring(text)
+            except Exception:
+                P.count("parse.raised")
+        else:
+            rel, q, kind, seg, doc = corpus.definitions()[idx]
+            P.case({"def": seg}, klass="corpus/" + kind, sample={"origin": rel + ":" + q, "source": (seg or "")[:300]})
+            try:
+                node = ast.parse(seg).body[0]
+                (cdd.class_.parse.class_ if kind == "ClassDef" else cdd.function.parse.function)(node)
             except Exception:
                 P.count("parse.raised")
         CUR.update(P=None)
